@@ -126,6 +126,14 @@ class ScriptedExecutor(P.ProcessExecutor):
         super().__init__(*a, **kw)
         if SCRIPT is not None:
             SCRIPT.executor = self
+            # an executor that has just been built has no worker processes and no queued futures of its own
+            try:
+                stale = len(self._running_pairs()) + len(self._pending_futures())
+            except BaseException:   # noqa
+                stale = 0
+            if stale:
+                SCRIPT.violations.append(('executor-state-shared', f'the executor built for this run starts out with {stale} running/queued futures that belong to '
+                                                                   'an earlier run: its worker slots are occupied by work that is not its own'))
 
     def _fid(self, future):
         if SCRIPT.base is None:
@@ -153,8 +161,9 @@ class ScriptedExecutor(P.ProcessExecutor):
         return [f for f in SCRIPT.created if not f.done and f.id not in started]
 
     def _obs(self):
-        running = [self._fid(f) for f, _ in self._running_pairs()]
-        pendq = [self._fid(f) for f in self._pending_futures()]
+        mine = {id(f) for f in SCRIPT.created}
+        running = [self._fid(f) for f, _ in self._running_pairs() if id(f) in mine]
+        pendq = [self._fid(f) for f in self._pending_futures() if id(f) in mine]
         done = []
         for f in SCRIPT.created:
             if f.done:
